@@ -18,3 +18,4 @@ INVARIANT FinalIsDrange
 INVARIANT FinalExplained
 INVARIANT IntTdDaySame
 INVARIANT EveryKthWeekday
+INVARIANT MachineIsFunction
